@@ -196,11 +196,7 @@ def float_constant_expressions(rep, tier):
     for a in lits:
         for b in lits:
             for op, on in ARITH.items():
-                if op == "/" and integral(a) and integral(b):
-                    # EXCLUDED (genuine defect of the unchanged tree, reported): the Go printer writes a float literal with an
-                    # integral value without a decimal point (7.0 -> `7`), so `7.0f32 / 2.0f32` is emitted as `7 / 2`: an
-                    # INTEGER constant division in Go (= 3), where the source means 3.5
-                    continue
+                # (`7.0f32 / 2.0f32` was emitted as the integer constant division `7 / 2` until fix d391ce0: the class stays in)
                 text = (f"fn pass(x: float32) -> float32 {{ x }}\nfn main() {{\n    let r: float32 = {a}f32 {op} {b}f32;\n"
                         f"    let _ = string_println(float32_to_string(r));\n    let _ = string_println(float32_to_string({a}f32 {op} {b}f32));\n"
                         f"    let _ = string_println(float32_to_string(pass({a}f32 {op} {b}f32)));\n    ()\n}}\n")
@@ -269,6 +265,11 @@ def float_constant_expressions(rep, tier):
                     # value by up to 2^-54 relative; Go's exact folding keeps that offset and it decides the tie, where the
                     # float32 operation rounds the tie to even (`0.2f32 - 0.7f32` gives -0.49999997 as a constant, -0.5 at run time)
                     ties += 1
+                    g1 = round_binary(got)
+                    w1 = round_binary(want)
+                    if g1 is not None and w1 is not None and g1 != w1:
+                        rep.violation(ident + ":tie", {"source": text, "go_expression": shown, "go_constant_value": repr(float(g1)),
+                                                       "float32_operation_value": repr(float(w1))})
                     continue
                 want, got = round_binary(want), round_binary(got)                                   # ... rounded once
                 if want is None or got is None:
@@ -279,6 +280,31 @@ def float_constant_expressions(rep, tier):
                                                  "go_constant_value": repr(float(got)) if op in ARITH else got,
                                                  "float32_operation_value": repr(float(want)) if op in ARITH else want,
                                                  "literal_operands_are_float32_values": [Fraction(x["l"]["v"]) == ga, Fraction(x["r"]["v"]) == gb]})
+    # ---- float64: a literal is written as the shortest decimal that identifies the double, which Go folds exactly
+    f64 = [("0.1", "+", "0.2"), ("0.1", "*", "3.0"), ("0.7", "-", "0.1"), ("1.0", "/", "3.0"), ("0.5", "+", "0.25"), ("4.0", "/", "3.0"), ("2.0", "*", "8.0")]
+    reqs64 = [{"id": i, "text": f"fn main() {{\n    let r: float64 = {a} {op} {b};\n    let _ = string_println(float64_to_string(r));\n    ()\n}}\n", "dir": d} for i, (a, op, b) in enumerate(f64)]
+    on64 = {"+": "add", "-": "sub", "*": "mul", "/": "div"}
+    checked64 = 0
+    for (a, op, b), r in zip(f64, gv_parallel("compile", reqs64)):
+        ident = f"c10:float64-constant-expression:{on64[op]}:{a}:{b}"
+        if r["verdict"] != "ok":
+            rep.violation(ident + ":rejected", {"diagnostics": [x["msg"] for x in r.get("diags", [])][:3]})
+            continue
+        try:
+            found = bins(goparse.parse(r["go"]), [])
+        except goparse.GoSyntaxError:
+            continue
+        da, db = round_binary(Fraction(a), 53, -1022, 1023), round_binary(Fraction(b), 53, -1022, 1023)
+        for x in found:
+            want = go_constant_fold(op, {"k": "float", "v": str(da)}, {"k": "float", "v": str(db)})
+            got = go_constant_fold(op, x["l"], x["r"])
+            if want is None or got is None:
+                continue
+            want, got = round_binary(want, 53, -1022, 1023), round_binary(got, 53, -1022, 1023)
+            checked64 += 1
+            if want != got:
+                rep.violation(ident + ":value", {"go_expression": f'{x["l"]["v"]} {x["op"]} {x["r"]["v"]}', "go_constant_value": repr(float(got)), "float64_operation_value": repr(float(want))})
+    rep.coverage["float64_constant_expressions_checked"] = checked64
     rep.coverage["float32_constant_expressions_checked"] = checked
     rep.coverage["float32_constant_expression_programs_without_one"] = unread
     rep.coverage["float32_constant_expressions_excluded_as_ties"] = ties
